@@ -19,6 +19,11 @@ use std::sync::{Arc, Mutex, OnceLock};
 pub const TAG: u64 = 0xC16;
 pub const PROPERTY: &str = "C16";
 pub const BUDGET: u64 = 20_000;
+
+/// step budget of one evaluation: the general one, more for the few very long texts of the batch
+pub fn budget_for(src: &str) -> u64 {
+    BUDGET.max(src.len() as u64)
+}
 pub const DISCARD: &str = "DISCARD";
 
 pub fn batch_size(tier: Tier) -> usize {
@@ -90,6 +95,7 @@ const PROBES: &[&str] = &[
     "print(\"{} {} {}\", 1.5, [1, \"a\"], ja); print(\"{}\"); print(\"{} {}\", 1); [-(-5), -(2.5), !ja, !(1 < 2)]",
     "[type(1), type(1.5), type(\"a\"), type([1]), type(ja), type(functie() { 1 })]",
     "float(\"abc\")",
+    "stel n = 0.0 / 0.0; stel i = 1.0 / 0.0; [n < 1.0, n <= 1.0, n > 1.0, n >= n, 1.0 <= n, n == n, n != n, i > n, i - i < 1.0, als n < 1.0 { 1 } anders { 2 }]",
     // texts that end in the first character of a two-character token (what follows the text in memory
     // must not matter)
     "1 /",
@@ -137,6 +143,15 @@ pub fn batch(seed: u64, tier: Tier) -> &'static Batch {
 fn make_program(seed: u64, i: usize) -> String {
     if i % 5 == 4 {
         PROBES[(i / 5) % PROBES.len()].to_string()
+    } else if i % 150 == 27 {
+        // very long texts: counters of the compiler and the symbol table pass 16-bit boundaries
+        // (66 000 block-scoped declarations whose slot is re-used; 66 000 statements; 70 000 bytes of
+        // straight-line code) - the documented limits (65 535 constants, locals, jump distance) are not
+        // exceeded
+        match (i / 150) % 2 {
+            0 => format!("{}stel z = 5; z", "{ stel a = 1; } ".repeat(66_000)),
+            _ => format!("stel t = 0; {}t", "t = t + 1; ".repeat(12_000)),
+        }
     } else if i % 50 == 17 {
         // deep nesting (native recursion in the parser, the compiler, the collector and the renderer:
         // whatever bounds it must not depend on the build, the thread or what ran before)
@@ -163,7 +178,7 @@ fn make_program(seed: u64, i: usize) -> String {
 
 pub fn plain_digest(src: &str) -> String {
     let mut plan = Plan::plain();
-    plan.budget = BUDGET;
+    plan.budget = budget_for(src);
     let r = runner::run_eval(src, &plan, 1, true);
     if r.injected == Injected::Budget {
         return DISCARD.to_string();
@@ -250,7 +265,7 @@ pub fn run_history(programs: &[String], modes: &[u8]) -> HistoryRun {
     let mut log = Fold::new();
     for (i, src) in programs.iter().enumerate() {
         let mut plan = Plan::plain();
-        plan.budget = BUDGET;
+        plan.budget = budget_for(src);
         plan.alloc_mode = modes.get(i).cloned().unwrap_or(alloc::PLAIN);
         plan.tail = Some(i as u64);
         let r = runner::run_eval(src, &plan, (i + 1) as u64, true);
@@ -434,7 +449,7 @@ pub fn run_threads(spec: &ThreadsSpec) -> ThreadsRun {
                         sh.sched.maybe_switch(tid);
                         let eval_id = (tid as u64) * 100_000 + pos as u64 + 1;
                         let mut plan = Plan::plain();
-                        plan.budget = BUDGET;
+                        plan.budget = budget_for(src);
                         plan.check_foreign = true;
                         plan.alloc_mode = modes[pos];
                         runner::begin_run(&plan, eval_id, tid, Some(sh.sched.clone()));
